@@ -13,6 +13,8 @@
 
 #include "vharness.h"
 
+#include <climits>
+
 namespace {
 
 struct Written {
@@ -30,6 +32,7 @@ int schemeDefault(const std::string &s)
     if (s == "http") return 80;
     if (s == "https") return 443;
     if (s == "ftp") return 21;
+    if (s == "whois") return 43;
     return 0;   // none
 }
 
@@ -84,6 +87,16 @@ Written refSplit(bool connect, const std::string &u)
 
 std::string str(const SBuf &b) { return std::string(b.rawContent(), b.length()); }
 
+std::string normalisePath(const std::string &p)
+{
+    std::string o;
+    for (unsigned char c : p) {
+        if (isalnum(c) || (c && strchr("-._~:/?#[]@!$&'()*+,;=%", c))) o += (char)c;
+        else { char b[8]; snprintf(b, sizeof b, "%%%02X", c); o += b; }
+    }
+    return o;
+}
+
 std::set<std::string> keysEmitted;
 void failOnce(const std::string &key, const std::string &msg)
 {
@@ -134,7 +147,11 @@ int checkOne(Http::MethodType mt, const std::string &u)
                             " path=\"" + V::esc(str(uri.path())) + "\": ";
     // --- port
     if (w.kind == Written::NonNumeric) { failOnce("port:non-numeric-accepted", ctx + "the written port \"" + V::esc(w.portText) + "\" is not a decimal number"); return 1; }
-    if (badPort) { failOnce("port:out-of-range-accepted", ctx + "the written port " + w.portText + " is outside 1..65535"); return 1; }
+    if (badPort) {
+        const char *sub = w.portValue == 0 ? "zero" : w.portValue <= (unsigned __int128)INT_MAX ? "above-65535" : "wraps-int";
+        failOnce(std::string("port:out-of-range-accepted:") + sub, ctx + "the written port " + w.portText + " is outside 1..65535");
+        return 1;
+    }
     if (port < 1 || port > 65535) { V::fail(ctx + "port outside 1..65535"); return 1; }
     if (w.kind == Written::Decimal) {
         ++nPortEqual;
@@ -146,7 +163,7 @@ int checkOne(Http::MethodType mt, const std::string &u)
         else if (port != d) V::fail(ctx + "no port is written but the port is not the scheme default " + std::to_string(d));
     }
     // --- host
-    if (host.empty()) V::fail(ctx + "empty host");
+    if (host.empty()) { failOnce("host:empty-accepted", ctx + "empty host (an authority that consists of a port only)"); return 1; }
     bool lowered = false;
     for (unsigned char c : host) if (c >= 'A' && c <= 'Z') { V::fail(ctx + "host is not lower-case"); break; }
     for (unsigned char c : w.authority) if (c >= 'A' && c <= 'Z') lowered = true;
@@ -162,7 +179,16 @@ int checkOne(Http::MethodType mt, const std::string &u)
     craw.append(canon.data(), canon.size());
     if (!again.parse(method, craw)) { V::fail(ctx + "its canonical form \"" + V::esc(canon) + "\" is rejected"); return 1; }
     const int port2 = again.port().has_value() ? (int)*again.port() : -1;
-    if (str(again.getScheme().image()) != str(uri.getScheme().image()) || std::string(again.host()) != host || port2 != port || str(again.path()) != str(uri.path()))
+    // "the same path": equal up to percent-encoding of bytes that are not URI characters at all (RFC 3986
+    // 2.1/2.2: encoding those is plain normalisation); reserved characters must survive as they are
+    const std::string p1 = normalisePath(str(uri.path())), p2 = normalisePath(str(again.path()));
+    std::string delimEncoded;      // p1 as it would look with its "?" and "#" delimiters percent-encoded
+    for (char c : p1) { if (c == '?') delimEncoded += "%3F"; else if (c == '#') delimEncoded += "%23"; else delimEncoded += c; }
+    const bool restSame = str(again.getScheme().image()) == str(uri.getScheme().image()) && std::string(again.host()) == host && port2 == port;
+    if (restSame && p1 != p2 && p2 == delimEncoded)
+        failOnce("canonical:query-delimiter-percent-encoded", ctx + "its canonical form \"" + V::esc(canon) + "\" has the \"?\" (or \"#\") delimiter percent-encoded, "
+                 "so it parses back with the different path \"" + V::esc(str(again.path())) + "\"");
+    else if (!restSame || p1 != p2)
         V::fail(ctx + "its canonical form \"" + V::esc(canon) + "\" parses as scheme=" + str(again.getScheme().image()) + " host=\"" + V::esc(again.host()) +
                 "\" port=" + std::to_string(port2) + " path=\"" + V::esc(str(again.path())) + "\"");
     return 1;
